@@ -800,9 +800,25 @@ def agg_is(e, adt_suffix, variant=None):
 # ----------------------------------------------------------------------------- crate / facts
 
 # anchor bodies into which single-caller private helpers are spliced (wrapper tolerance)
-INLINE_ANCHORS = ("xs::store::Store::append", "xs::store::Store::insert_frame", "xs::store::Store::remove")
+INLINE_ANCHOR_PREFIXES = (
+    "xs::store::Store::append", "xs::store::Store::insert_frame", "xs::store::Store::remove", "xs::store::Store::new", "xs::store::Store::read",
+    "xs::store::Store::read_sync", "xs::store::Store::head", "xs::store::Store::iter_frames", "xs::store::Store::get", "xs::store::ttl::parse_ttl",
+    "xs::store::idx_topic_key_from_frame", "xs::api::handle", "xs::api::match_route", "xs::handlers::handler::Handler::", "xs::handlers::serve::",
+    "xs::generators::serve::", "xs::commands::serve::", "xs::nu::util::write_pipeline_to_cas", "<xs::nu::commands::")
+# crate-local functions the rules identify by their call sites (never inlined even when they have a single caller)
+ROLE_FNS = ("xs::commands::serve::run_command", "xs::handlers::handler::EngineWorker::new", "xs::store::spawn_gc_worker", "xs::store::is_expired",
+            "xs::store::idx_topic_key_prefix", "xs::store::idx_context_key_from_frame", "xs::store::idx_topic_frame_id_from_key", "xs::store::deserialize_frame")
+
+
+class _AnchorSet:
+    """Membership by prefix: a body is an anchor if its def path starts with one of the prefixes."""
+    def __contains__(self, d):
+        return isinstance(d, str) and d.startswith(INLINE_ANCHOR_PREFIXES)
+
+
+INLINE_ANCHORS = _AnchorSet()
 # names the repository's own tests pin (never inlined: rules anchor on them)
-PINNED_NAMES = ("xs::store::Store::new", "xs::store::Store::append", "xs::store::Store::read", "xs::store::Store::read_sync", "xs::store::Store::get",
+PINNED_NAMES = ROLE_FNS + ("xs::store::Store::new", "xs::store::Store::append", "xs::store::Store::read", "xs::store::Store::read_sync", "xs::store::Store::get",
                 "xs::store::Store::head", "xs::store::Store::remove", "xs::store::Store::insert_frame", "xs::store::Store::iter_frames",
                 "xs::store::idx_topic_key_from_frame", "xs::store::idx_context_key_range_end", "xs::store::ttl::parse_ttl")
 
